@@ -816,8 +816,20 @@ func c08Scaling(c *fw.Ctx, which int) fw.Outcome {
 		return best
 	}
 	const n = 1500
-	t1, t8 := measure(gens[which](n)), measure(gens[which](8*n))
-	ratio := float64(t8) / float64(t1+1)
+	// a measurement in the doubtful band is repeated (a loaded machine inflates the long run more than the short one):
+	// the smallest ratio seen in up to four attempts is the one judged
+	var t1, t8 time.Duration
+	ratio := 0.0
+	for attempt := 0; attempt < 4; attempt++ {
+		a, b := measure(gens[which](n)), measure(gens[which](8*n))
+		if r := float64(b) / float64(a+1); attempt == 0 || r < ratio {
+			t1, t8, ratio = a, b, r
+		}
+		if ratio <= 12 {
+			break
+		}
+		c.Count("scaling_measurements_repeated", 1)
+	}
 	c.Count("scaling_measurements", 1)
 	key := fw.HashString(names[which])
 	desc := fmt.Sprintf("%s: %d cues in %v, %d cues in %v, ratio %.1f", names[which], n, t1, 8*n, t8, ratio)
